@@ -10,6 +10,7 @@ import (
 	"os"
 	"sort"
 	"sync"
+	"time"
 )
 
 type Violation struct {
@@ -29,6 +30,7 @@ type Stats struct {
 	known      []string
 	exhaustive *bool
 	extra      map[string]any
+	lastFlush  time.Time
 }
 
 var St = &Stats{nt: map[uint64]struct{}{}, classes: map[string]int64{}, extra: map[string]any{}}
@@ -44,7 +46,15 @@ func Hash(parts ...any) uint64 {
 func (s *Stats) Eval(n int) {
 	s.mu.Lock()
 	s.evals += int64(n)
+	due := time.Since(s.lastFlush) > 3*time.Second
+	if due {
+		s.lastFlush = time.Now()
+	}
 	s.mu.Unlock()
+	if due {
+		// so that a process killed by the code under test (fatal error, race detector halt) leaves its counters behind
+		s.Flush()
+	}
 }
 
 // NT records one distinct non-trivial case, identified by its hash.
